@@ -32,7 +32,7 @@ man = dict(
                source_commits=HOOK_COMMITS, add_only=True),
     engines=[dict(name='tlc+replay', path='/verif/bin/check',
                   serves_properties=sorted(CHECKS),
-                  kind_free_text='TLA+ specifications in /verif/spec checked with TLC 1.8; TLC-generated behaviours/final states are replayed into the real pymininec code and traces projected from the real code are validated against the specifications (harness/*.py)')],
+                  kind_free_text='TLA+ specifications in /verif/spec checked with TLC 1.8 (one of them, LifecycleInd, additionally with Apalache 0.58: inductive invariant, inside the C14 check); TLC-generated behaviours/final states are replayed into the real pymininec code and traces projected from the real code are validated against the specifications (harness/*.py)')],
     checks=[CHECKS[p] for p in sorted(CHECKS)],
     not_applicable=[dict(property_id=p, reason=NA[p]) for p in sorted(NA)],
     notes=NOTES)
